@@ -325,7 +325,7 @@ class SgzConverter(SgzReader):
             # segyio will warn us that out padded cube is not contiguous. This is expected, and safe.
             warnings.filterwarnings("ignore", message="Implicit conversion to contiguous array")
             with segyio.create(out_file, spec) as segyfile:
-                self.read_variant_headers()
+                self._load_variant_headers(False)
                 # Doing this is fine now there is decent caching on the loader
                 segyfile.trace = [self.get_trace(i) for i in range(self.tracecount)]
                 segyfile.header = [self.regenerate_trace_header(i) for i in range(self.tracecount)]
@@ -375,7 +375,7 @@ class SgzConverter(SgzReader):
                                 buffer[u*self.chunk_bytes + z*self.unit_bytes:
                                        u*self.chunk_bytes + (z+1)*self.unit_bytes]
                         outfile.write(new_block)
-            self.read_variant_headers(include_padding=True)
+            self._load_variant_headers(True)
             # In the order of the header-word table (the order in which the reader assigns the arrays their offsets),
             # not the order in which earlier queries on this object happened to load them
             for k in self.stored_header_keys:
